@@ -190,7 +190,7 @@ func init() {
 	})
 
 	RegInd(&Ind{
-		Name: "volatility.Atr", In: []string{"H", "L", "C"}, Out: []string{"atr"},
+		Name: "volatility.Atr", Periods: []int{1}, In: []string{"H", "L", "C"}, Out: []string{"atr"},
 		// cfg = [maKind, period]; maKind 0 = SMA (the documented default), 1 = EMA, 2 = SMMA, 3 = HMA
 		Cfgs: func(t bool) [][]float64 {
 			return Box([]int{0, 1}, []int{maKinds - 1, Hi(t, 4, 6)}, nil)
@@ -254,7 +254,7 @@ func init() {
 	})
 
 	RegInd(&Ind{
-		Name: "volatility.ChandelierExit", In: []string{"H", "L", "C"}, Out: []string{"long", "short"},
+		Name: "volatility.ChandelierExit", Periods: []int{0}, In: []string{"H", "L", "C"}, Out: []string{"long", "short"},
 		// cfg = [period, multiplier]
 		Cfgs: func(t bool) [][]float64 {
 			var r [][]float64
@@ -392,7 +392,7 @@ func init() {
 	})
 
 	RegInd(&Ind{
-		Name: "volatility.SuperTrend", In: []string{"H", "L", "C"}, Out: []string{"superTrend"},
+		Name: "volatility.SuperTrend", Periods: []int{1}, In: []string{"H", "L", "C"}, Out: []string{"superTrend"},
 		// cfg = [maKind, period, multiplier]; the default constructor uses HMA(14), 2.5
 		Cfgs: func(t bool) [][]float64 {
 			var r [][]float64
